@@ -63,3 +63,4 @@ M("stray-more-sets-more-mask", "C04", XQ,
 
 REVERT("revert-D19-wide-ids", "C08", "a client id outside the int range was truncated")
 REVERT("revert-D20-full-table", "C17", "a service added by a reload to a full service table")
+REVERT("revert-D21-antidepends", "C20", "a back-end declared with module_antidepends()")
